@@ -301,8 +301,9 @@ type Contract struct {
 	HasMod     bool
 	Loops      map[int]*LoopSpec
 	Inline     bool
-	Inlines    []string // callees (substring of their short name) whose bodies are inlined in this function even if they have a contract
-	Trusted    bool     // contract is assumed, body not verified (external / out of subset); listed in evidence
+	CallGhosts map[string]map[string]*Node // witnesses for ghost parameters of callees: `call f: g = expr, ...`
+	Inlines    []string                    // callees (substring of their short name) whose bodies are inlined in this function even if they have a contract
+	Trusted    bool                        // contract is assumed, body not verified (external / out of subset); listed in evidence
 	Nullable   map[string]bool
 	Props      []string // property ids this contract serves
 	Lets       []Clause // let name = expr (Label = name)
@@ -340,7 +341,7 @@ type ContractFile struct {
 
 var clauseKeywords = map[string]bool{"func": true, "requires": true, "ensures": true, "modifies": true, "loop": true,
 	"inline": true, "trusted": true, "nullable": true, "props": true, "spec": true, "let": true, "ghost": true,
-	"immutable": true, "protects": true, "allowpanic": true, "mutable": true, "ginv": true, "uses": true, "merge": true, "maintains": true, "inlines": true}
+	"immutable": true, "protects": true, "allowpanic": true, "mutable": true, "ginv": true, "uses": true, "merge": true, "maintains": true, "inlines": true, "call": true}
 
 func ParseContractFile(path string, into *ContractFile) error {
 	data, err := os.ReadFile(path)
@@ -498,6 +499,29 @@ func ParseContractFile(path string, into *ContractFile) error {
 				cur.Inline = true
 			case "inlines":
 				cur.Inlines = append(cur.Inlines, strings.Fields(rest)...)
+			case "call":
+				// call callee: ghost = expr, ghost2 = expr   (witnesses the caller supplies for the callee's ghost parameters)
+				colon := strings.Index(rest, ":")
+				if colon < 0 {
+					return fmt.Errorf("%s: bad call clause %q", path, c)
+				}
+				callee := strings.TrimSpace(rest[:colon])
+				if cur.CallGhosts == nil {
+					cur.CallGhosts = map[string]map[string]*Node{}
+				}
+				m := map[string]*Node{}
+				for _, part := range splitTop(rest[colon+1:]) {
+					eq := strings.Index(part, "=")
+					if eq < 0 {
+						return fmt.Errorf("%s: bad call clause %q", path, c)
+					}
+					n, err := ParseSpecExpr(strings.TrimSpace(part[eq+1:]))
+					if err != nil {
+						return fmt.Errorf("%s: call clause %q: %v", path, c, err)
+					}
+					m[strings.TrimSpace(part[:eq])] = n
+				}
+				cur.CallGhosts[callee] = m
 			case "allowpanic":
 				cur.AllowPanic = true
 			case "trusted":
